@@ -1,7 +1,8 @@
 """C03 — optimize() never changes what a model computes.
 
 Proof obligations: lean/OV/Props/C03.lean over the executable model lean/OV/Model/C03{Graph,Fold,Pass}.lean
-(`foldGraph` = FoldConstantsPass, `evalGraph` = meaning of a graph with uninterpreted operators).
+(`foldGraph` = FoldConstantsPass, `evalGraph` = meaning of a graph with uninterpreted operators) and C03Dce.lean
+(`dcePass` = onnx_ir RemoveUnusedNodesPass, tie in harness/c03_dce.py).
 Tie: correspondence — the real `fold_constants` and the compiled Lean `foldGraph` on the same generated,
 annotated models (reference-evaluator answers are supplied to the model by the harness, computed with
 onnx.reference independently of /repo); canonicalised structures, `modified` flag and exceptions are diffed.
@@ -16,6 +17,8 @@ from collections import Counter
 from harness import c03_lib as L
 from harness import c03_run as R
 from harness import c03_streams as S
+from harness import c03_dce as D
+from harness import c03_history as H
 from harness import core
 
 PROP_MODULES = ["OV.Props.C03"]
@@ -33,6 +36,13 @@ def replay_case(run, body):
                 R.apply_api("fold_constants", S.versioned_model(v, case["kind"]), {})
             except Exception:
                 pass
+    if case.get("fresh_first") is not None:
+        hits = [r for r in H.run_child(int(case["fresh_first"])) if r["what"] == "semantic" and r["kind"] == case.get("kind")
+                and r["v"] == case.get("v") and r["api"] == api]
+        print(f"REPLAY fresh-process history first={case['fresh_first']} {case.get('kind')}@{case.get('v')} {api}: {[r['detail'] for r in hits]}")
+        if hits:
+            run.violation(case, f"replayed case still fails: {hits[0]['detail']}")
+        return
     feeds = R.three_feeds(m, run.rng)
     if case.get("override"):
         feeds = [dict(f, **{k: __import__("numpy").array(v) for k, v in case["override"].items()}) for f in feeds] + feeds
@@ -126,14 +136,33 @@ def main(run: core.Run) -> None:
     # ---- regions outside the random-DAG tie: functions with reference attributes, evaluator state across models of
     #      different opsets, node-level shape inference with overridable shape operands
     extra = (S.function_stream(run, drv, stats, hist, run.size(16, 64)) + S.opset_history_stream(run, stats)
-             + S.shape_override_stream(run, stats, run.size(10, 40)))
+             + S.shape_override_stream(run, stats, run.size(10, 40)) + H.fresh_process_history_stream(run, stats))
     for kind, desc, detail in extra:
         if kind == "semantic":
             sem_failures.append((R.unb64(desc["model_b64"]), {"tags": [str(desc.get("meta") or desc.get("kind"))], **{k: v for k, v in desc.items() if k in ("sequence", "override")}},
                                  desc["api"], desc["opts"], detail.split(": ", 1)[-1] if False else detail))
+            for k in ("fresh_first", "kind", "v"):
+                if k in desc:
+                    sem_failures[-1][1][k] = desc[k]
         elif kind == "tie":
             tie_problems.append(("tie", {"model_b64": desc["model_b64"], "in_limit": 8192, "out_limit": 262144, "should_fold": "N",
                                          "tags": [str(desc.get("meta"))]}, detail))
+
+    # ---- the `dce` slot: RemoveUnusedNodesPass vs the Lean model dcePass (theorem dce_refines), directed families + random models
+    dce_results, dce_known = D.dce_stream(run, drv, models[: run.size(120, 600)], stats, hist, run.size(48, 192))
+    for kind, desc, detail in dce_results:
+        if kind == "semantic":
+            sem_failures.append((R.unb64(desc["model_b64"]), {"tags": [str(desc.get("meta"))]}, desc["api"], desc["opts"], detail))
+        else:
+            tie_problems.append((kind, desc, detail))
+    if dce_known:
+        if "C03-D4" in {f["id"] for f in run.open_findings()}:
+            run.known("C03-D4", f"RemoveUnusedNodesPass pops training_mode of a BatchNormalization whose running outputs are unused: "
+                      f"{len(dce_known)} runs of the dce stream differ ({dce_known[0][1][:120]})")
+        else:
+            desc, d = dce_known[0]
+            sem_failures.append((R.unb64(desc["model_b64"]), {"tags": [str(desc.get("meta"))]}, desc["api"], desc["opts"],
+                                 f"{desc['api']}({desc['opts']}) changes what the model computes: {d}"))
 
     if stats["known_C03-D2_in_stream"]:
         run.known("C03-D2", "fold_constants / optimize(inline=False) on a function body with a reference attribute "
@@ -194,8 +223,10 @@ def main(run: core.Run) -> None:
     must = ["fold:initializer", "gate:graphinput", "gate:inputsize", "gate:alwaysfold", "gate:outputsize", "gate:blacklist",
             "gate:nondeterministic", "gate:controlflow", "subst:alias", "out:replaced", "if:then", "if:else",
             "dropout:2out", "castlike:cast", "cast:identity", "reshape:identity", "expand:identity", "concat:dropzero",
-            "shape:const", "gather:const", "seqat:identity", "clear:initializer", "thm:fragmentA"]
+            "shape:const", "gather:const", "seqat:identity", "clear:initializer", "thm:fragmentA"] + D.REQUIRED_BRANCHES
     missing = [b for b in must if hist[b] == 0] + [t for t in ("loop", "scan", "expand_othershape", "const_optional_gap",
-                                                                "initinput_optional_operand", "branch_alias_outer") if tagc[t] == 0]
+                                                                "initinput_optional_operand", "branch_alias_outer", "dropout_train_dynamic_ratio_nonzero",
+                                                                "rulepair_unsqueeze_lt", "rulepair_unsqueeze_eq", "rulepair_unsqueeze_gt",
+                                                                "rulepair_transpose_inverse", "rule_flatten_axis_0") if tagc[t] == 0]
     if missing:
         raise core.Infra(f"generator degenerated: model branches never reached: {missing}")
